@@ -12,23 +12,43 @@ COQ_HEADER = ('From Coq Require Import List ZArith NArith. Import ListNotations.
 COQ_RUNNER = 'bad_purity'
 COQ_TYPES = ('list Z * list nat', 'list Z * list nat')
 SHARD = 200
-RULE = ('random sequences (4-8 calls quick, 6-16 thorough) over the listed public API — compute_features (both methods, both '
-        'centrings), compute_shape_features, compute_burst_features (both methods), compute_cyclepoints, compute_features_2d '
-        '(axis 0 / None, dict and list options), compute_features_3d, recompute_edges, limit_df, epoch_df, drop_samples_df and '
-        'the plotting functions — all sharing ONE set of argument objects (signal array, option dictionaries, tables); deep '
-        'snapshots of every argument object before / after every call; equal calls must return identical results wherever '
-        'they occur. non-trivial = a sequence containing a repeated call separated by a different call')
+RULE = ('random sequences (4-8 calls quick, 6-16 thorough) over the listed public API, %d call kinds: compute_features (both methods, '
+        'both centrings, empty option dictionaries), compute_shape_features / compute_burst_features (both methods, both centrings), '
+        'compute_cyclepoints, the individual shape functions (compute_durations, compute_extrema_voltage, compute_symmetry, '
+        'compute_band_amp), burst-feature functions (compute_amp_fraction, compute_amp_consistency, compute_period_consistency, '
+        'compute_monotonicity, compute_burst_fraction) and cyclepoint functions (find_extrema, find_zerox, '
+        'extrema_interpolated_phase) called directly with shared tables / arrays; compute_features_2d (axis 0 / None; dict, list, '
+        'amp-method and return_samples-carrying options), compute_features_3d (axis (0,1) / 0 / 1; dict, 1-D list, 2-D list, amp); '
+        'recompute_edges (peak, trough and burst-free tables), limit_df (both limits, start=None, stop=None, reset_indices=False), '
+        'epoch_df (short epochs, epoch_len >= signal length), drop_samples_df and the plotting functions (summary with / without '
+        'xlim, plot_only_result, interp=False, trough-centred and burst-free tables; cyclepoints from table and arrays; parameter, '
+        'histogram and categorical plots; Bycycle.plot) — all sharing ONE set of argument objects (signal array, option '
+        'dictionaries, tables, cyclepoint arrays); deep snapshots of every argument object before / after every call; equal calls '
+        'must return identical results wherever they occur. non-trivial = a sequence containing a repeated call separated by a '
+        'different call')
 ASSUMPTIONS = ['per-call frame conditions of the real code are established only on the explored sequences (partial)',
                'the model lifts per-call purity to all sequences (proved)']
-NCALLS = 25
 CALL_NAMES = ['cf_cycles', 'cf_amp', 'cf_trough', 'shape', 'burst_cycles', 'burst_amp', 'cyclepoints', 'g2d_dict', 'g2d_list',
               'g2d_none', 'g3d', 'rc_edges', 'limit_df', 'epoch_df', 'drop_samples', 'plot_summary', 'plot_cp_df', 'plot_cp_array',
-              'plot_param', 'plot_feature', 'cf_amp_empty_thr', 'cf_cycles_empty_thr', 'cf_amp_empty_bk', 'rc_edges_no_bursts', 'limit_df_no_bursts']
+              'plot_param', 'plot_feature', 'cf_amp_empty_thr', 'cf_cycles_empty_thr', 'cf_amp_empty_bk', 'rc_edges_no_bursts',
+              'limit_df_no_bursts',
+              # widened (clause audit D, rank 11)
+              'g3d_ax0', 'g3d_ax1_list', 'g3d_ax0_list', 'g3d_grid', 'g2d_none_dict', 'g2d_amp', 'g2d_none_amp', 'g3d_amp', 'g2d_rs',
+              'g2d_list_rs', 'g2d_none_rs', 'durations', 'extrema_voltage', 'symmetry', 'band_amp', 'amp_fraction',
+              'amp_consistency', 'amp_consistency_next', 'period_consistency', 'monotonicity', 'burst_fraction', 'find_extrema',
+              'find_zerox', 'phase', 'shape_trough', 'burst_trough', 'burst_trough_amp', 'plot_categorical',
+              'plot_categorical_group', 'bm_plot', 'bm_plot_nolim', 'plot_summary_nolim', 'plot_summary_only', 'plot_summary_step',
+              'plot_summary_trough', 'plot_summary_quiet', 'plot_cp_df_nolim', 'plot_cp_df_trough', 'plot_param_nolim_step',
+              'plot_hist_all', 'limit_df_start_none', 'limit_df_stop_none', 'limit_df_noreset', 'epoch_df_all', 'epoch_df_longer',
+              'rc_edges_trough']
+NCALLS = len(CALL_NAMES)
+PLOTS = {n for n in CALL_NAMES if n.startswith(('plot_', 'bm_plot'))}
+RULE = RULE % NCALLS
 
 
 def cases(rng, tier):
     out = []
-    n = 60 if tier == 'quick' else 500
+    n = 70 if tier == 'quick' else 600
     lo, hi = (4, 8) if tier == 'quick' else (6, 16)
     for _ in range(n):
         k = rng.randint(lo, hi)
@@ -93,73 +113,138 @@ def _env(c):
                                                                        'min_n_cycles': 3})
     env['peaks'] = env['df']['sample_peak'].values.copy()
     env['troughs'] = env['df']['sample_last_trough'].values.copy()
+    # objects for the widened call list: cyclepoint table, trough-centred tables, extrema arrays, more option dictionaries
+    from bycycle.features import compute_cyclepoints
+    from bycycle.cyclepoints import find_extrema
+    from bycycle import Bycycle
+    env['df_samples'] = compute_cyclepoints(sig, fs, fr)
+    env['df_trough'] = compute_features(sig, fs, fr, center_extrema='trough', threshold_kwargs=copy.deepcopy(thr))
+    env['df_shape_trough'] = compute_shape_features(sig, fs, fr, center_extrema='trough')
+    env['pk'], env['tr'] = find_extrema(sig, fs, fr)
+    env['cfk_amp'] = {'burst_method': 'amp', 'burst_kwargs': {'amp_threshes': (0.5, 1.5)},
+                      'threshold_kwargs': {'burst_fraction_threshold': 0.5, 'min_n_cycles': 2}}
+    env['cfk_rs'] = {'threshold_kwargs': dict(thr), 'return_samples': False, 'center_extrema': 'trough'}
+    env['cfk_list_rs'] = [{'threshold_kwargs': dict(thr), 'return_samples': True}, {'threshold_kwargs': dict(thr), 'return_samples': False}]
+    env['cfk_grid'] = [[{'threshold_kwargs': dict(thr)}, {'threshold_kwargs': dict(thr, min_n_cycles=3)}],
+                       [{'center_extrema': 'trough'}, {'threshold_kwargs': dict(thr)}]]
+    # a fitted object sharing the caller's signal and threshold dictionary (for Bycycle.plot); its table is watched too
+    bm = Bycycle(thresholds=env['thr'])
+    bm.fit(sig, fs, fr)
+    env['bm_df'] = bm.df_features
+    OBJ['bm'] = bm
     return env, fs, fr
+
+
+OBJ = {}
 
 
 def _call(i, env, fs, fr):
     import matplotlib.pyplot as plt
+    name = CALL_NAMES[i]
+    try:
+        return _dispatch(name, env, fs, fr)
+    finally:
+        if name in PLOTS:
+            plt.close('all')
+
+
+def _dispatch(name, env, fs, fr):
     from bycycle.features import (compute_features, compute_shape_features, compute_burst_features, compute_cyclepoints)
+    from bycycle.features.shape import compute_durations, compute_extrema_voltage, compute_symmetry, compute_band_amp
+    from bycycle.features.burst import (compute_amp_fraction, compute_amp_consistency, compute_period_consistency,
+                                        compute_monotonicity, compute_burst_fraction)
+    from bycycle.cyclepoints import find_extrema, find_zerox, extrema_interpolated_phase
     from bycycle.group import compute_features_2d, compute_features_3d
     from bycycle.burst import recompute_edges
     from bycycle.utils.dataframes import limit_df, epoch_df, drop_samples_df
+    from bycycle.plts import (plot_burst_detect_summary, plot_cyclepoints_df, plot_cyclepoints_array, plot_burst_detect_param,
+                              plot_feature_hist, plot_feature_categorical)
     sig = env['sig']
     n = len(sig)
-    if i == 0:
-        return compute_features(sig, fs, fr, threshold_kwargs=env['thr'], find_extrema_kwargs=env['fek'])
-    if i == 1:
-        return compute_features(sig, fs, fr, burst_method='amp', burst_kwargs=env['bk'], threshold_kwargs=env['thr_amp'])
-    if i == 2:
-        return compute_features(sig, fs, fr, center_extrema='trough', threshold_kwargs=env['thr'], find_extrema_kwargs=env['fek'])
-    if i == 3:
-        return compute_shape_features(sig, fs, fr, find_extrema_kwargs=env['fek'])
-    if i == 4:
-        return compute_burst_features(env['df_shape'], sig)
-    if i == 5:
-        return compute_burst_features(env['df_shape'], sig, burst_method='amp', burst_kwargs=env['bk_feat'])
-    if i == 6:
-        return compute_cyclepoints(sig, fs, fr, **env['fek'])
-    if i == 7:
-        return compute_features_2d(env['sigs2'], fs, fr, compute_features_kwargs=env['cfk'], axis=0, n_jobs=1)
-    if i == 8:
-        return compute_features_2d(env['sigs2'], fs, fr, compute_features_kwargs=env['cfk_list'], axis=0, n_jobs=2)
-    if i == 9:
-        return compute_features_2d(env['sigs2'], fs, fr, compute_features_kwargs=env['cfk_list'], axis=None)
-    if i == 10:
-        return compute_features_3d(env['sigs3'], fs, fr, compute_features_kwargs=env['cfk'], axis=(0, 1), n_jobs=1)
-    if i == 11:
-        return recompute_edges(env['df'], env['thr'])
-    if i == 12:
-        return limit_df(env['df'], fs, start=0.2 * n / fs, stop=0.8 * n / fs)
-    if i == 13:
-        return epoch_df(env['df'], n, max(20, n // 4))
-    if i == 14:
-        return drop_samples_df(env['df'])
-    if i == 23:
-        return recompute_edges(env['df_quiet'], env['thr'])
-    if i == 24:
-        return limit_df(env['df_quiet'], fs, start=0.2 * n / fs, stop=0.8 * n / fs)
-    if i == 20:
-        return compute_features(sig, fs, fr, burst_method='amp', burst_kwargs=env['bk_min'], threshold_kwargs=env['e_thr'])
-    if i == 21:
-        return compute_features(sig, fs, fr, threshold_kwargs=env['e_thr'])
-    if i == 22:
-        return compute_features(sig, fs, fr, burst_method='amp', burst_kwargs=env['e_bk'], threshold_kwargs=env['thr_amp'])
-    from bycycle.plts import (plot_burst_detect_summary, plot_cyclepoints_df, plot_cyclepoints_array, plot_burst_detect_param,
-                              plot_feature_hist)
-    try:
-        if i == 15:
-            plot_burst_detect_summary(env['df'], sig, fs, env['thr'], xlim=(0.1 * n / fs, 0.9 * n / fs))
-        elif i == 16:
-            plot_cyclepoints_df(env['df'], sig, fs, xlim=(0.1 * n / fs, 0.9 * n / fs))
-        elif i == 17:
-            plot_cyclepoints_array(sig, fs, peaks=env['peaks'], troughs=env['troughs'])
-        elif i == 18:
-            plot_burst_detect_param(env['df'], sig, fs, 'monotonicity', env['thr']['monotonicity_threshold'])
-        elif i == 19:
-            plot_feature_hist(env['df'], 'volt_amp')
-    finally:
-        plt.close('all')
-    return None
+    thr = env['thr']
+    lo, hi = 0.1 * n / fs, 0.9 * n / fs
+    g2 = lambda k, **kw: compute_features_2d(env['sigs2'], fs, fr, compute_features_kwargs=env[k], **kw)
+    g3 = lambda k, **kw: compute_features_3d(env['sigs3'], fs, fr, compute_features_kwargs=env[k], **kw)
+    table = {
+        'cf_cycles': lambda: compute_features(sig, fs, fr, threshold_kwargs=thr, find_extrema_kwargs=env['fek']),
+        'cf_amp': lambda: compute_features(sig, fs, fr, burst_method='amp', burst_kwargs=env['bk'], threshold_kwargs=env['thr_amp']),
+        'cf_trough': lambda: compute_features(sig, fs, fr, center_extrema='trough', threshold_kwargs=thr, find_extrema_kwargs=env['fek']),
+        'shape': lambda: compute_shape_features(sig, fs, fr, find_extrema_kwargs=env['fek']),
+        'burst_cycles': lambda: compute_burst_features(env['df_shape'], sig),
+        'burst_amp': lambda: compute_burst_features(env['df_shape'], sig, burst_method='amp', burst_kwargs=env['bk_feat']),
+        'cyclepoints': lambda: compute_cyclepoints(sig, fs, fr, **env['fek']),
+        'g2d_dict': lambda: g2('cfk', axis=0, n_jobs=1),
+        'g2d_list': lambda: g2('cfk_list', axis=0, n_jobs=2),
+        'g2d_none': lambda: g2('cfk_list', axis=None),
+        'g3d': lambda: g3('cfk', axis=(0, 1), n_jobs=1),
+        'rc_edges': lambda: recompute_edges(env['df'], thr),
+        'limit_df': lambda: limit_df(env['df'], fs, start=0.2 * n / fs, stop=0.8 * n / fs),
+        'epoch_df': lambda: epoch_df(env['df'], n, max(20, n // 4)),
+        'drop_samples': lambda: drop_samples_df(env['df']),
+        'plot_summary': lambda: plot_burst_detect_summary(env['df'], sig, fs, thr, xlim=(lo, hi)),
+        'plot_cp_df': lambda: plot_cyclepoints_df(env['df'], sig, fs, xlim=(lo, hi)),
+        'plot_cp_array': lambda: plot_cyclepoints_array(sig, fs, peaks=env['peaks'], troughs=env['troughs']),
+        'plot_param': lambda: plot_burst_detect_param(env['df'], sig, fs, 'monotonicity', thr['monotonicity_threshold']),
+        'plot_feature': lambda: plot_feature_hist(env['df'], 'volt_amp'),
+        'cf_amp_empty_thr': lambda: compute_features(sig, fs, fr, burst_method='amp', burst_kwargs=env['bk_min'], threshold_kwargs=env['e_thr']),
+        'cf_cycles_empty_thr': lambda: compute_features(sig, fs, fr, threshold_kwargs=env['e_thr']),
+        'cf_amp_empty_bk': lambda: compute_features(sig, fs, fr, burst_method='amp', burst_kwargs=env['e_bk'], threshold_kwargs=env['thr_amp']),
+        'rc_edges_no_bursts': lambda: recompute_edges(env['df_quiet'], thr),
+        'limit_df_no_bursts': lambda: limit_df(env['df_quiet'], fs, start=0.2 * n / fs, stop=0.8 * n / fs),
+        # group functions: 3-D along one axis (the _proxy_3d -> compute_features_2d(axis=None) path), list options, amp method,
+        # option dictionaries that carry 'return_samples' (the key the group functions pop)
+        'g3d_ax0': lambda: g3('cfk', axis=0, n_jobs=1),
+        'g3d_ax1_list': lambda: g3('cfk_list', axis=1, n_jobs=2),
+        'g3d_ax0_list': lambda: g3('cfk_list', axis=0, n_jobs=1),
+        'g3d_grid': lambda: g3('cfk_grid', axis=(0, 1), n_jobs=1),
+        'g2d_none_dict': lambda: g2('cfk', axis=None),
+        'g2d_amp': lambda: g2('cfk_amp', axis=0, n_jobs=1),
+        'g2d_none_amp': lambda: g2('cfk_amp', axis=None),
+        'g3d_amp': lambda: g3('cfk_amp', axis=(0, 1), n_jobs=1),
+        'g2d_rs': lambda: g2('cfk_rs', axis=0, n_jobs=1),
+        'g2d_list_rs': lambda: g2('cfk_list_rs', axis=0, n_jobs=1),
+        'g2d_none_rs': lambda: g2('cfk_rs', axis=None, return_samples=False),
+        # the individual shape / burst-feature / cyclepoint functions on caller-owned tables and arrays
+        'durations': lambda: compute_durations(env['df_samples']),
+        'extrema_voltage': lambda: compute_extrema_voltage(env['df_samples'], sig),
+        'symmetry': lambda: compute_symmetry(env['df_samples'], sig),
+        'band_amp': lambda: compute_band_amp(env['df_samples'], sig, fs, fr),
+        'amp_fraction': lambda: compute_amp_fraction(env['df_shape']),
+        'amp_consistency': lambda: compute_amp_consistency(env['df_shape']),
+        'amp_consistency_next': lambda: compute_amp_consistency(env['df_shape_trough'], direction='next'),
+        'period_consistency': lambda: compute_period_consistency(env['df_shape'], direction='last'),
+        'monotonicity': lambda: compute_monotonicity(env['df_samples'], sig),
+        'burst_fraction': lambda: compute_burst_fraction(env['df_samples'], sig, fs, fr, amp_threshes=env['bk']['amp_threshes']),
+        'find_extrema': lambda: find_extrema(sig, fs, fr, **env['fek']),
+        'find_zerox': lambda: find_zerox(sig, env['pk'], env['tr']),
+        'phase': lambda: extrema_interpolated_phase(sig, env['pk'], env['tr']),
+        'shape_trough': lambda: compute_shape_features(sig, fs, fr, center_extrema='trough', find_extrema_kwargs=env['fek']),
+        'burst_trough': lambda: compute_burst_features(env['df_shape_trough'], sig),
+        'burst_trough_amp': lambda: compute_burst_features(env['df_shape_trough'], sig, burst_method='amp', burst_kwargs=env['bk_feat']),
+        # plots: no xlim (the caller's table reaches the drawing code unsliced), result-only, step-wise, trough / burst-free tables
+        'plot_categorical': lambda: plot_feature_categorical(env['df'], 'volt_amp'),
+        'plot_categorical_group': lambda: plot_feature_categorical(env['df'], 'time_rdsym', group_by='is_burst'),
+        'bm_plot': lambda: OBJ['bm'].plot(xlim=(lo, hi)),
+        'bm_plot_nolim': lambda: OBJ['bm'].plot(),
+        'plot_summary_nolim': lambda: plot_burst_detect_summary(env['df'], sig, fs, thr),
+        'plot_summary_only': lambda: plot_burst_detect_summary(env['df'], sig, fs, thr, plot_only_result=True),
+        'plot_summary_step': lambda: plot_burst_detect_summary(env['df'], sig, fs, thr, xlim=(lo, hi), interp=False),
+        'plot_summary_trough': lambda: plot_burst_detect_summary(env['df_trough'], sig, fs, thr, xlim=(lo, hi)),
+        'plot_summary_quiet': lambda: plot_burst_detect_summary(env['df_quiet'], sig, fs, thr),
+        'plot_cp_df_nolim': lambda: plot_cyclepoints_df(env['df'], sig, fs),
+        'plot_cp_df_trough': lambda: plot_cyclepoints_df(env['df_trough'], sig, fs, xlim=(lo, hi)),
+        'plot_param_nolim_step': lambda: plot_burst_detect_param(env['df_trough'], sig, fs, 'amp_consistency',
+                                                                 thr['amp_consistency_threshold'], interp=False),
+        'plot_hist_all': lambda: plot_feature_hist(env['df_quiet'], 'band_amp', only_bursts=False),
+        'limit_df_start_none': lambda: limit_df(env['df'], fs, stop=0.8 * n / fs),
+        'limit_df_stop_none': lambda: limit_df(env['df'], fs, start=0.2 * n / fs),
+        'limit_df_noreset': lambda: limit_df(env['df_trough'], fs, start=0.2 * n / fs, stop=0.8 * n / fs, reset_indices=False),
+        'epoch_df_all': lambda: epoch_df(env['df'], n, n),
+        'epoch_df_longer': lambda: epoch_df(env['df_trough'], n, n + 50),
+        'rc_edges_trough': lambda: recompute_edges(env['df_trough'], thr),
+    }
+    r = table[name]()
+    return None if name in PLOTS else r
 
 
 def _res_hash(r):
@@ -213,7 +298,7 @@ def nontrivial(c, o):
 
 
 def kind_of(c, o):
-    return c['kind']
+    return c['kind'] + ('/skip' if 'skip' in o else '/some-call-raised' if o.get('errors') else '')
 
 
 def coq_case(c, o):
